@@ -569,6 +569,7 @@ class P(Prop):
             v = {"cli": cli_model.model_view(case, resps, impl_out)}
             if resps.get("err") is None:  # a run that completed draws exactly the permutations the model says
                 v["permutations_drawn"] = resps["used"]
+                v["order"] = None  # what the MODEL says (methods in command-line order on one stream); see stream_order
             return v
         out = []
         for pil, resp, o in zip(case["inputs"], resps, impl_out["_rec"]["seq_full"]):
@@ -587,6 +588,7 @@ class P(Prop):
             v = {"cli": cli_model.impl_view(case, impl_out)}
             if impl_out.get("err") is None:
                 v["permutations_drawn"] = len(impl_out["_rec"]["stream"])
+                v["order"] = self.stream_order(case, impl_out)
             return v
         if case.get("kind") == "cli-hashseed":
             return None
@@ -596,7 +598,7 @@ class P(Prop):
         if case.get("kind") == "cli_stream":
             return self.stream_oracle(case, impl_out)
         if case.get("kind") == "cli-hashseed":
-            return cli_runs_differ(case, impl_out["cli_runs"]) or differs_from_command_line_order(case, impl_out["cli_runs"], impl_out.get("inorder"))
+            return cli_runs_differ(case, impl_out["cli_runs"])  # the order recomputation is compared in the extra stage as a disagreement
         for i, (a, b) in enumerate(zip(impl_out["seq"], impl_out["fresh"])):
             if a != b:
                 return f"call {i} on a reused configuration object differs from the same call on a fresh one (method {case['method']})"
@@ -610,11 +612,20 @@ class P(Prop):
         return None
 
     def stream_oracle(self, case, impl_out):
-        """on what the real in-process run produced (never the model): the permutations the methods recorded are the
-        process's stream cut in the order of --methods, and the files left behind are the ones of the recomputation in
-        command-line order"""
+        """The property text (reproducible across processes, hash seeds and repeated calls) does not fix the ORDER in
+        which a run processes its methods; that the order is the command line's is what the MODEL says
+        (Model/C07Stream.lean).  It is therefore compared as part of the correspondence (`stream_order` in impl_view,
+        None in model_view): a tool processing its methods in another deterministic order breaks the correspondence
+        (VIOLATION … no-failing-input-found) but is not given a "failing input"; a hash-seed dependent order is a
+        failing input of the hash-seed stage (`cli_runs_differ`)."""
         if not isinstance(impl_out, dict) or "_rec" not in impl_out:
             return "no result: %r" % (impl_out,)
+        return None
+
+    def stream_order(self, case, impl_out):
+        """None, or how the real in-process run departs from "methods in command-line order on one stream": the
+        permutations the methods recorded are the process's stream cut in the order of --methods, and the files left
+        behind are the ones of the recomputation in command-line order"""
         rec = impl_out["_rec"]
         if impl_out.get("err") is not None:
             return None  # refused / degenerate input: nothing written that could depend on the order
@@ -760,10 +771,16 @@ class P(Prop):
             ties["cases_naming_a_method_twice"] += 1 if len({n.strip() for n in names}) < len(names) else 0
             ties["cases_with_spaces_around_a_method_name"] += 1 if any(n != n.strip() for n in names) else 0
             ties["cases_compared_with_command_line_order"] += 1 if (ino.get("ok") and any(r["rc"] == 0 for r in rs)) else 0
-            why = cli_runs_differ(c, rs) or differs_from_command_line_order(c, rs, ino)
+            why = cli_runs_differ(c, rs)
+            order = None if why else differs_from_command_line_order(c, rs, ino)
             if why:
                 failures.append({"case": c, "why": why, "impl": {"runs": [dict(r, stderr=r["stderr"][-300:]) for r in rs],
                                                                  "command_line_order": ino}})
+            elif order:
+                # not demanded by the property text (any deterministic order is reproducible): a departure from what the
+                # model says, reported as a broken correspondence
+                failures.append({"case": c, "why": None, "impl": {"runs": [dict(r, stderr=r["stderr"][-300:]) for r in rs]},
+                                 "disagree": {"impl": order, "model": "methods run in command-line order on one generator seeded with 1 (Model/C07Stream.lean)"}})
         declared = list_valued_options()
         info = {"fresh_process_calls": evals, "cli_runs": cli_runs, "cli_runs_with_a_table": n_tables, "hashseeds": hashseeds,
                 "cli_cases": len(cli_cases), "cli_ties": ties,
